@@ -82,6 +82,19 @@ class BridgeProp(Prop):
         return ev["ev"] in ("Dgram", "Obs", "Start", "Stop")
 
 
+def bridge_replay(ctx: Ctx, which: set[str]) -> dict:
+    """Gen_Bridge behaviours (TLC simulator) stepped through the real bridge; `which` = projections this property owns."""
+    import warnings
+    from .. import replay, tlcgen
+    behs, info = tlcgen.behaviours("Gen_Bridge", "Gen_Bridge.cfg", ctx.pick(400, 6000), 18, ctx.seed % 100000)
+    with warnings.catch_warnings():
+        warnings.simplefilter("ignore")
+        mm = replay.replay_bridge(behs, ctx.seed)
+    mine = [dict(m, trace=[[s["a"], s["p"], s["cls"]] for s in behs[m["behaviour"]][: m["step"] + 1]]) for m in mm
+            if any(m["what"].startswith(w) for w in which)]
+    return {"gen": info, "behaviours": len(behs), "steps": sum(len(b) for b in behs), "mismatches": mine}
+
+
 class C05(BridgeProp):
     id = "C05"
     title = "a status broadcast is decoded into exactly the device the sender described"
@@ -257,6 +270,9 @@ class C07(BridgeProp):
     def owns(self, clause):
         return clause.startswith("C07:")
 
+    def replay_phase(self, ctx):
+        return bridge_replay(ctx, {"delivered-port"})
+
 
 ALPHA2 = ["start", "stop", "cycle", "occ1", "occ2", "free1", "free2", "send1", "send2"]
 
@@ -333,6 +349,9 @@ class C17(BridgeProp):
 
     def owns(self, clause):
         return clause.startswith("C17:")
+
+    def replay_phase(self, ctx):
+        return bridge_replay(ctx, {"running-flag", "listening-ports", "ports-being-released", "start-raised"})
 
 
 P05, P06, P07, P17 = C05(), C06(), C07(), C17()
